@@ -187,6 +187,68 @@ func Traverse(p *core.Prog, r *core.Report) {
 		}
 		sd, se := travSummary(p, fd), travSummary(p, fe)
 		nEdges += len(sd) + len(se)
+		// every loop of a walker visits all the elements of what it ranges over: it is left only by exhaustion
+		// (a `break` at the end of the body, a return from inside: only the first response / property / item is judged)
+		for _, g := range []*ssa.Function{fd, fe} {
+			why := ""
+			for _, loop := range allLoopsOf(g) {
+				var header *ssa.BasicBlock
+				for b := range loop {
+					dom := true
+					for o := range loop {
+						if !b.Dominates(o) {
+							dom = false
+						}
+					}
+					if dom {
+						header = b
+					}
+				}
+				for b := range loop {
+					if b == header {
+						continue
+					}
+					for _, sc := range b.Succs {
+						if !loop[sc] {
+							why = p.Pos(posOf(b.Instrs[len(b.Instrs)-1], g))
+						}
+					}
+					if len(b.Succs) == 0 {
+						if _, isPanic := b.Instrs[len(b.Instrs)-1].(*ssa.Panic); !isPanic {
+							why = p.Pos(posOf(b.Instrs[len(b.Instrs)-1], g))
+						}
+					}
+				}
+			}
+			// a loop whose body always leaves it is no loop in the flow graph any more: the head go/ssa builds for a
+			// range / for statement has no edge coming back
+			for _, b := range g.Blocks {
+				isHead := strings.HasSuffix(b.Comment, ".loop")
+				for _, ins := range b.Instrs {
+					if _, isNext := ins.(*ssa.Next); isNext {
+						isHead = true // the step of a range over a map or string: the head of that loop
+					}
+				}
+				if !isHead {
+					continue
+				}
+				back := false
+				for _, pr := range b.Preds {
+					if b.Dominates(pr) {
+						back = true
+					}
+				}
+				if !back && len(b.Instrs) > 0 {
+					why = p.Pos(posOf(b.Instrs[len(b.Instrs)-1], g))
+				}
+			}
+			key := short(core.FuncName(g)) + ":loops-exhaustive"
+			if why != "" {
+				r.Bad(rule, key, why, "a loop of the walker is left before every element was visited: the defaults / examples of the remaining responses, headers, properties or items are never judged")
+			} else {
+				r.OK(rule, key, p.Pos(g.Pos()), "every loop of the walker is left only by exhaustion")
+			}
+		}
 		// (b) sibling agreement: every traversal step of the default walker exists in the example walker with the same guards and path shape
 		idx := map[string][]travEdge{}
 		for _, e := range se {
